@@ -49,6 +49,9 @@ pub fn local_part() -> BoxedStrategy<String> {
         2 => "[a-z0-9]{1,6}",
         2 => n32().prop_map(|n| n.to_string()),
         1 => pick(&["a", "z", "abc", "1a", "a1", "0a", "x0", "dev", "post", "rc1"]).prop_map(String::from),
+        // real-world shapes, split at '-' (a separator in a local version) and lower-cased; numbers beyond u32 / u64
+        2 => super::text::realistic_ident().prop_map(|s| s.to_ascii_lowercase().split('-').find(|p| !p.is_empty()).unwrap_or("x").to_string()),
+        1 => "[1-9][0-9]{9,26}",
     ]
     .prop_map(|s| if s.bytes().all(|b| b.is_ascii_digit()) { s.trim_start_matches('0').to_string() } else { s })
     .prop_map(|s| if s.is_empty() { "0".to_string() } else { s })
@@ -186,7 +189,11 @@ pub fn spell(p: &PepV, sp: &Spelling, extend_release: bool) -> String {
                 o.push_str([".", "-", "_"][sp.local_seps[i % sp.local_seps.len()] as usize]);
             }
             if part.bytes().all(|b| b.is_ascii_digit()) {
-                o.push_str(&num(part.parse::<u64>().unwrap_or(0)));
+                // numeric local parts may exceed u64: pad the digit string itself
+                let z = sp.zeros[zi % sp.zeros.len()] as usize;
+                zi += 1;
+                o.push_str(&"0".repeat(z));
+                o.push_str(part);
             } else {
                 o.push_str(&casing(part, sp.upper));
             }
